@@ -83,6 +83,7 @@ func main() {
 	r.Set("fastsync_cases", int(st3b.cases))
 	r.Set("fastsync_accepted", int(st3b.accepted))
 	r.Set("fastsync_verdicts", v3b)
+	r.Set("fastsync_panics", int(st3b.panics))
 	r.Set("voteset_searches", searches)
 	r.Set("voteset_addvote_calls", p2count.addVotes)
 	r.Set("voteset_setpeermaj23_calls", p2count.claims)
